@@ -320,7 +320,7 @@ def c01(tier, seed):
 @plan("C10")
 def c10(tier, seed):
     return dict(
-        jobs=diff_jobs("C10", tier, seed, dict(flags=0.5, nest=0.25, nest_flag=0.6, max_stmts=7, ops=0.08, kwargs=0.3), 2)
+        jobs=diff_jobs("C10", tier, seed, dict(flags=0.5, nest=0.25, nest_flag=0.6, max_stmts=7, ops=0.08, kwargs=0.3, lazy_rate=0.25), 2)
         # flags fed by SETUP results over histories on one object (partial setup, executors, calls, deep copies, reloads): a node runs
         # iff its flag is truthy when the execution runs - also when the flag's producer had not run when setup() was called
         + [dict(kind="hist11", pid="C10", n_histories=(150 if tier == "quick" else 1500), require_flags=True,
